@@ -41,7 +41,24 @@ def main():
     rnd = random.Random(job.get("seed", 0))
     tables = job["tables"]
     out_rows = []
-    for t, o in job["rows"]:
+    import threading
+
+    def in_thread(fn, *a):
+        box = []
+        th = threading.Thread(target=lambda: box.append(fn(*a)))
+        th.start()
+        th.join()
+        return box[0]
+    for n_, (t, o) in enumerate(job["rows"]):
+        # every other row is computed in a freshly started worker thread: results must not depend on the thread
+        row = in_thread(one_row, job, tables, rnd, t, o) if n_ % 2 else one_row(job, tables, rnd, t, o)
+        out_rows.append(row)
+    with open(job["out"], "w") as fh:
+        json.dump({"rows": out_rows}, fh, separators=(",", ":"))
+
+
+def one_row(job, tables, rnd, t, o):
+    if True:
         h = tables[t - 1]
         cls = CLS[h["ver"]]
         order = ORDER[h["ver"]]
@@ -65,8 +82,19 @@ def main():
             for d, dim in enumerate(inner):
                 g.update(dim["opts"][idx[d]])
             s = pre + "/".join(m + ":" + g[m] for m in order if m in g)
-            c = cls(s)
-            sc = c.scores()
+            try:
+                c = cls(s)
+                sc = c.scores()
+            except Exception:  # noqa - a valid table vector that is rejected or crashes is recorded as the impossible score -3
+                obs.extend([-3] * h["slots"])
+                d_ = len(idx) - 1
+                while d_ >= 0:
+                    idx[d_] += 1
+                    if idx[d_] < radix[d_]:
+                        break
+                    idx[d_] = 0
+                    d_ -= 1
+                continue
             for x in sc:
                 obs.append(tenth(x))
             if objs is not None:
@@ -74,11 +102,14 @@ def main():
             if job.get("c09"):
                 sev = c.severities()
                 js = c.as_json()
+                jm = c.as_json(sort=True, minimal=True)
                 jsev = [js.get("baseSeverity"), js.get("temporalSeverity"), js.get("environmentalSeverity")]
+                jmsev = [jm.get("baseSeverity"), jm.get("temporalSeverity"), jm.get("environmentalSeverity")]
                 for k, x in enumerate(sc):
                     extra = getattr(c, "severity", None) if k == 0 else None
-                    rep.add((k + 1, repr(x), type(x).__name__, sev[k], jsev[k] if jsev[k] is not None else "-",
-                             extra if extra is not None else "-"))
+                    for jv in set([jsev[k], jmsev[k]]):
+                        rep.add((k + 1, repr(x), type(x).__name__, sev[k], jv if jv is not None else "-",
+                                 extra if extra is not None else "-"))
             if j in want:
                 samples.append({"j": j, "s": s})
             # increment mixed radix, last fastest
@@ -100,9 +131,7 @@ def main():
             row["dict_size"] = len(d_)
         if job.get("c09"):
             row["rep"] = sorted(list(x) for x in rep)
-        out_rows.append(row)
-    with open(job["out"], "w") as fh:
-        json.dump({"rows": out_rows}, fh, separators=(",", ":"))
+        return row
 
 
 if __name__ == "__main__":
